@@ -59,4 +59,168 @@ example : (decode (.arr (.prim .int8)) { stream := [0, 0, 255, 255, 1, 2, 3, 4, 
     = .arr (.cons (.int 1) (.cons (.int 2) (.cons (.int 3) (.cons (.int 4) (.cons (.int 5) .nil))))) := by
   decide
 
+
+/-! ### progress of the two halves: every accepted message takes its size prefix and at least its minimal
+    size off the stream, so the number of messages a half yields is bounded by its bytes, whatever the sizes,
+    counts and lengths the messages declare -/
+
+/-- skipping what is left of a message leaves the stream shorter by the declared size (as far as it goes) -/
+theorem discardAll_length {d0 d : D} (h : Within d0 d) :
+    d.discardAll.stream.length = d0.stream.length - min d0.remain d0.stream.length := by
+  obtain ⟨c, hc, hs, hr⟩ := h
+  unfold D.discardAll
+  simp only
+  rw [hs, hr]
+  simp only [List.length_drop]
+  omega
+
+/-- an accepted request takes at least 8 bytes off the client half (or all that is left of it) -/
+theorem readRequest_progress (s : Bytes) (q : Req) (rest : Bytes) (h : readRequest s = .ok (q, rest)) :
+    rest.length ≤ s.length - 8 := by
+  unfold readRequest at h
+  dsimp only at h
+  obtain ⟨c, hc, hs, hr⟩ := readInt_within 4 { stream := s, remain := 4 }
+  generalize (lookupLayout _ _).1 = lay at h
+  split at h
+  · cases h
+  · rename_i hbig
+    split at h
+    · split at h <;> cases h
+    · rename_i hsmall
+      split at h
+      · cases h
+      · split at h
+        · split at h
+          · cases h
+          · injection h with h
+            injection h with hq hrest
+            rw [← hrest, discardAll_length (request_chain _ _)]
+            simp only [hs, List.length_drop]
+            omega
+        · simp only [Except.ok.injEq, Prod.mk.injEq] at h
+          obtain ⟨hq, hrest⟩ := h
+          rw [← hrest, discardAll_length (request_chain_hdr _)]
+          simp only [hs, List.length_drop]
+          omega
+
+theorem register_length (open_ : List Req) (q : Req) : (register open_ q).length ≤ open_.length + 1 := by
+  unfold register
+  have := List.length_filter_le (fun o => o.corr != q.corr) open_
+  simp only [List.length_append, List.length_cons, List.length_nil]
+  omega
+
+theorem readRequest_nil : ∃ e, readRequest [] = .error e := ⟨.eof, by rfl⟩
+
+theorem dissectClient_nil (n : Nat) (acc : List Req) : (dissectClient n [] acc).1 = acc := by
+  cases n with
+  | zero => simp [dissectClient]
+  | succ n =>
+    obtain ⟨e, he⟩ := readRequest_nil
+    unfold dissectClient
+    rw [he]
+
+/-- **C02 (Kafka, client half).** The requests a client half leaves registered number at most one per 8 bytes of
+    the half (plus one), whatever it declares - for every byte string and every fuel. -/
+theorem c02_kafka_requests_le_bytes : ∀ (fuel : Nat) (s : Bytes) (acc : List Req),
+    (dissectClient fuel s acc).1.length ≤ acc.length + s.length / 8 + 1 := by
+  intro fuel
+  induction fuel with
+  | zero => intro s acc; simp [dissectClient]; omega
+  | succ n ih =>
+    intro s acc
+    unfold dissectClient
+    cases hr : readRequest s with
+    | error e => simp only []; omega
+    | ok v =>
+      obtain ⟨q, rest⟩ := v
+      simp only []
+      have hp := readRequest_progress s q rest hr
+      have hreg := register_length acc q
+      have := ih rest (register acc q)
+      by_cases hs8 : s.length < 8
+      · -- the next call sees an empty stream: nothing more is registered
+        have hnil : rest = [] := List.eq_nil_of_length_eq_zero (by omega)
+        rw [hnil, dissectClient_nil]
+        omega
+      · have : rest.length / 8 + 1 ≤ s.length / 8 := by omega
+        omega
+
+/-- an accepted response takes at least 4 bytes off the server half (or all that is left of it) -/
+theorem readResponse_progress (open_ : List Req) (s : Bytes) (it : Option Item) (open' : List Req) (rest : Bytes)
+    (h : readResponse open_ s = .ok (it, open', rest)) : rest.length ≤ s.length - 4 := by
+  unfold readResponse at h
+  dsimp only at h
+  obtain ⟨c, hc, hs, hr⟩ := readInt_within 4 { stream := s, remain := 4 }
+  generalize (open_.find? _) = found at h
+  split at h
+  · cases h
+  · split at h
+    · split at h <;> cases h
+    · split at h
+      · cases h
+      · split at h
+        · split at h
+          · cases h
+          · injection h with h
+            injection h with _ h
+            injection h with _ hrest
+            rw [← hrest, discardAll_length (Within.trans (readInt_within 4 _) (decode_within _ _))]
+            simp only [hs, List.length_drop]
+            omega
+        · injection h with h
+          injection h with _ h
+          injection h with _ hrest
+          rw [← hrest, discardAll_length (readInt_within 4 _)]
+          simp only [hs, List.length_drop]
+          omega
+
+theorem readResponse_nil (open_ : List Req) : ∃ e, readResponse open_ [] = .error e := ⟨.eof, by rfl⟩
+
+theorem dissectServer_nil (n : Nat) (open_ : List Req) (acc : List Item) : (dissectServer n [] open_ acc).1 = acc := by
+  cases n with
+  | zero => simp [dissectServer]
+  | succ n =>
+    obtain ⟨e, he⟩ := readResponse_nil open_
+    unfold dissectServer
+    rw [he]
+
+/-- **C02 (Kafka, server half).** The items a server half yields number at most one per 4 bytes of the half (plus
+    one), whatever the messages declare and whatever requests are open - for every byte string and every fuel. -/
+theorem c02_kafka_items_le_bytes : ∀ (fuel : Nat) (s : Bytes) (open_ : List Req) (acc : List Item),
+    (dissectServer fuel s open_ acc).1.length ≤ acc.length + s.length / 4 + 1 := by
+  intro fuel
+  induction fuel with
+  | zero => intro s open_ acc; simp [dissectServer]; omega
+  | succ n ih =>
+    intro s open_ acc
+    unfold dissectServer
+    cases hr : readResponse open_ s with
+    | error e => simp only []; omega
+    | ok v =>
+      obtain ⟨it, open', rest⟩ := v
+      have hp := readResponse_progress open_ s it open' rest hr
+      cases it with
+      | none =>
+        simp only []
+        have := ih rest open' acc
+        by_cases hs4 : s.length < 4
+        · have hnil : rest = [] := List.eq_nil_of_length_eq_zero (by omega)
+          rw [hnil, dissectServer_nil]
+          omega
+        · have : rest.length / 4 + 1 ≤ s.length / 4 := by omega
+          omega
+      | some i =>
+        simp only []
+        have := ih rest open' (acc ++ [i])
+        have hl : (acc ++ [i]).length = acc.length + 1 := by simp
+        by_cases hs4 : s.length < 4
+        · have hnil : rest = [] := List.eq_nil_of_length_eq_zero (by omega)
+          rw [hnil, dissectServer_nil]
+          omega
+        · have : rest.length / 4 + 1 ≤ s.length / 4 := by omega
+          omega
+
+/-- not vacuous: the bound is about real work - an ApiVersions v0 request (12 bytes) is accepted and registered -/
+example : (dissectClient 5 [0, 0, 0, 10, 0, 18, 0, 0, 0, 0, 0, 7, 255, 255] []).1.length = 1 := by decide
+
 end KsVerif.Proofs.C02Kafka
